@@ -380,6 +380,90 @@ def lexer_section(ctx, c06):
             'lexer_stream_ends': ends, 'lexer_model_disagreements': differ, 'lexer_printable_not_given_back': len(wrong)}
 
 
+# ------------------------------------------------------------------------------------------------ text -> tree, end to end
+
+TEXT_HEADER = (HEADER + 'From DV Require Import C06.LexerText.\n'
+               'Definition dec_k (keys : list str) (l : ltoken) : option N :=\n'
+               '  match l with\n'
+               '  | LName n => match pos_of n keys 0 with Some i => Some (2 * i + 1) | None => None end\n'
+               '  | _ => match dec_unary l with Some k => Some (2 * k) | None => None end\n'
+               '  end.\n'
+               'Definition enc_k (keys : list str) (a : N) : ltoken := if N.odd a then LName (nth_str keys (a / 2)) else enc_unary (a / 2).\n')
+BINOPS = ['Or', 'And', 'Eq', 'Nq', 'Lt', 'Le', 'Gt', 'Ge', 'InOp', 'Sub', 'Add', 'Mul', 'Div', 'Exp']
+AST_OP = {'InOp': 'In'}
+AST_TYPES = ['number', 'string', 'boolean', 'Any', 'Null', 'time']
+
+
+def gen_spec_tree(rng, depth, nkeys):
+    if depth <= 0 or rng.random() < 0.2:
+        return 'Atom %d' % (2 * rng.randint(0, nkeys - 1) + 1 if rng.random() < 0.6 else 2 * rng.randint(0, 3))
+    r = rng.random()
+    sub = lambda: '(' + gen_spec_tree(rng, depth - 1, nkeys) + ')'
+    if r < 0.45:
+        return 'Bin %s %s %s' % (rng.choice(BINOPS), sub(), sub())
+    if r < 0.55:
+        return 'Neg %s' % sub()
+    if r < 0.70:
+        return 'Btw %s %s %s' % (sub(), sub(), sub())
+    if r < 0.78:
+        return 'Inst %s %d' % (sub(), rng.randint(0, 5))
+    if r < 0.86:
+        return 'Path %s %d' % (sub(), rng.randint(0, nkeys - 1))
+    if r < 0.93:
+        return 'Filt %s %s' % (sub(), sub())
+    return 'Call %s %s' % (sub(), sub())
+
+
+def spec_ast(t, keys):
+    """Coq tree (parsed term) -> the JSON tree of dv ast."""
+    n, a = t.name, t.args
+    if n == 'Atom':
+        return ['Name', keys[a[0] // 2]] if a[0] % 2 else ['Numeric', '1' * (a[0] // 2 + 1), '']
+    if n == 'Bin':
+        return [AST_OP.get(a[0].name, a[0].name), spec_ast(a[1], keys), spec_ast(a[2], keys)]
+    if n == 'Neg':
+        return ['Neg', spec_ast(a[0], keys)]
+    if n == 'Btw':
+        return ['Between'] + [spec_ast(x, keys) for x in a]
+    if n == 'Inst':
+        return ['InstanceOf', spec_ast(a[0], keys), ['FeelType', AST_TYPES[a[1]]]]
+    if n == 'Path':
+        return ['Path', spec_ast(a[0], keys), ['Name', keys[a[1]]]]
+    if n == 'Filt':
+        return ['Filter', spec_ast(a[0], keys), spec_ast(a[1], keys)]
+    return ['FunctionInvocation', spec_ast(a[0], keys), ['PositionalParameters', spec_ast(a[1], keys)]]
+
+
+def text_section(ctx, c06):
+    """parse_text (lexer model with the flag policy, abs, Spec parser) on the text the Coq printer writes for random trees of the operator
+    fragment, in both renderings, against the real parser (dv ast): the same tree or both none -- also where the theorem's side condition
+    flag_ok fails (lower bound of a between with an `and` in it: the model predicts what the real parser does there)."""
+    rng = ctx.rng
+    keys = list(c06.NAMES)
+    ck = coq_keys(keys)
+    terms, n = [], ctx.pick(250, 3000)
+    for _ in range(n):
+        t = gen_spec_tree(rng, rng.choice([1, 2, 2, 3, 3, 4]), len(keys))
+        terms.append('let t := %s in let k := %s in map (fun ts => (flag_ok false ts, unlex (conc_all k (enc_k k) ts), parse_text k (dec_k k) (unlex (conc_all k (enc_k k) ts)))) '
+                     '[render_min t; render_full t]' % (t, ck))
+    res = ctx.run_model(TEXT_HEADER, terms, shard_size=20, tag='txt')
+    flat = [x for r in res for x in r]
+    got = ctx.run_impl('ast', [{'bind': c06.BIND, 'e': ''.join(chr(c) for c in text), 'mode': 'expr'} for _, text, _ in flat])
+    bad, outside = 0, 0
+    for (fok, text, mt), g in zip(flat, got):
+        ctx.evaluations += 1
+        ctx.corr_checked += 1
+        exp = spec_ast(mt.args[0], keys) if (isinstance(mt, App) and mt.name == 'Some') else None
+        outside += 0 if fok else 1
+        s = ''.join(chr(c) for c in text)
+        if len(s) > 12:
+            ctx.nontrivial.add('txt:' + s)
+        if g.get('ast') != exp:
+            bad += 1
+            ctx.corr_broken('text-level model (lexer model + Spec parser) on `%s`' % s, {'text': s}, g.get('ast', g.get('err', g)), exp if exp is not None else 'no tree')
+    return {'text_level_parsed': len(flat), 'text_level_outside_flag_ok': outside, 'text_level_disagreements': bad}
+
+
 def replay_lexer(ctx, c):
     ctx.build_harness()
     got = ctx.run_impl('tokens', [{'keys': c['keys'], 'cps': cps(c['text']), 'flags': c['sched'], 'limit': len(c['text']) + 2}])[0]
